@@ -15,6 +15,8 @@ func runExtraProfile(name, root string, w *bufio.Writer, seed uint64, n, ops int
 		genLock(w, root, seed, n, ops)
 	case "notify":
 		genNotifyProfile(w, seed, n, ops)
+	case "dread":
+		genDread(w, root, seed, n, ops%100, ops >= 100)
 	case "blocking":
 		genBlocking(w, root, seed, n, ops)
 	case "crash":
